@@ -408,7 +408,13 @@ func (dr *DecodingReader) Union(selectFn func(selector uint8) (Deserializable, e
 		if selector != 0 {
 			return fmt.Errorf("only 0 the selector can indicate a None value")
 		}
+		if scope := dr.Scope(); scope != 0 {
+			return fmt.Errorf("union None value cannot be followed by %d more bytes", scope)
+		}
 		return nil
+	}
+	if fix := dest.FixedLength(); fix != 0 && fix != dr.Scope() {
+		return fmt.Errorf("union value (selector %d) has fixed size %d, but scope has %d bytes", selector, fix, dr.Scope())
 	}
 	return dest.Deserialize(dr)
 }
